@@ -186,9 +186,12 @@ func (s vc06Spec) bytes() []byte {
 	case "empty-sig":
 		sigb = nil
 	case "high-s": // (r, n-s) is a second valid ECDSA signature
-		if ek, ok := k.priv.(*ecdsa.PrivateKey); ok && len(sigb)%2 == 0 && len(sigb) > 0 {
+		if ek, ok := k.priv.(*ecdsa.PrivateKey); ok && len(sigb) == 2*((ek.Params().BitSize+7)/8) {
 			half := len(sigb) / 2
 			sv := new(big.Int).SetBytes(sigb[half:])
+			if sv.Sign() == 0 || sv.Cmp(ek.Params().N) >= 0 {
+				break
+			}
 			sv.Sub(ek.Params().N, sv)
 			out := make([]byte, half)
 			sv.FillBytes(out)
